@@ -235,7 +235,7 @@ def gen_request(rng, v, rid, profile):
             props["waiting"] = True
         return base("rm")
     if pick(p.get("add", 0.05)):
-        n = rng.choice(NAMES + ["", "new", 7])
+        n = rng.choice(NAMES + ["", "new", 7, " a", "B ", " new", "w3 "])
         if isinstance(n, str) and rng.random() < 0.3:
             n = case_variant(rng, n)
         props["name"] = n
@@ -258,9 +258,13 @@ def gen_request(rng, v, rid, profile):
             props["waiting"] = True
         return base("quit")
     if pick(p.get("ro", 0.14)):
-        cmd = rng.choice(["status", "list", "numprocesses", "numwatchers", "status", "list", "options", "globaloptions", "listen"])
-        if cmd in ("status", "list", "numprocesses") and rng.random() < 0.6:
+        cmd = rng.choice(["status", "list", "numprocesses", "numwatchers", "status", "list", "options", "globaloptions", "listen",
+                          "stats", "stats"])
+        if cmd in ("status", "list", "numprocesses", "stats") and rng.random() < 0.6:
             props["name"] = some_name(rng, v)
+            if cmd == "stats" and rng.random() < 0.4:
+                p_ = some_pid(rng, v, resolve_name(v, props["name"]))
+                props["process"] = p_ if isinstance(p_, int) and not isinstance(p_, bool) else 5
         if cmd == "options":
             props["name"] = some_name(rng, v, bogus=0.3)
         return base(cmd)
